@@ -1256,6 +1256,13 @@ class C18(Spec):
         ('mod8', 'int', {'l': 16}, (8, 32760), [['mod', ['r'], ['a'], {'b': 8}]]),
         ('to_bits', 'int', {'l': 12}, (0, 2047), [['to_bits', ['r'], ['a'], {}]]),
         ('trailing_zeros', 'int', {'l': 12}, (1, 2047), [['trailing_zeros', ['r'], ['a'], {}]]),
+        # only the l low bits are asked for: the mask still has to cover all bit_length + k bits of a
+        ('to_bits-low4', 'int', {'l': 64}, (5, 5 + (1 << 60)), [['to_bits', ['r'], ['a'], {'l': 4}]]),
+        ('to_bits-low1-neg', 'int', {'l': 64}, (-3, -3 - (1 << 62)), [['to_bits', ['r'], ['a'], {'l': 1}]]),
+        # large-field branches (field order >> 2^k) of the zero test / comparison
+        ('sgn-64', 'int', {'l': 64}, (1, (1 << 63) - 1), [['ltc', ['r'], ['a'], {'c': 0}]]),
+        ('eq-64', 'int', {'l': 64}, (5, 1 << 62), [['eqc', ['r'], ['a'], {'c': 7}]]),
+        ('mod3-64', 'int', {'l': 64}, (3, 3 << 60), [['mod', ['r'], ['a'], {'b': 3}]]),
         ('floordiv', 'int', {'l': 16}, (10, 30000), [['floordiv', ['r'], ['a'], {'b': 10}]]),
         ('trunc', 'fxp', {'l': 24, 'f': 8}, ([3, 2], [524287, 16]), [['sqr', ['r'], ['a'], {}]]),
         ('fxp-cmp', 'fxp', {'l': 24, 'f': 8}, ([3, 2], [524287, 16]), [['ltc', ['r'], ['a'], {'c': [0, 1]}]]),
